@@ -672,6 +672,55 @@ func (w *World) armText(fn *ssa.Function, b *ssa.BasicBlock) (string, int, bool)
 	return text, n, true
 }
 
+// armRegionConstantOnly: the arm starting at block b (entered only from the flag's branch) may itself branch; in every
+// block it dominates, each write is a write of constants and no other call is handed the writer or a byte slice (it may
+// ask the node questions: n.HasClosure()).
+func (w *World) armRegionConstantOnly(fn *ssa.Function, b *ssa.BasicBlock) bool {
+	if len(b.Preds) != 1 {
+		return false
+	}
+	sa := w.Sinks()
+	for _, x := range fn.Blocks {
+		if !b.Dominates(x) {
+			continue
+		}
+		for _, ins := range x.Instrs {
+			if s := sa.sinkAt(fn, ins); s != nil {
+				for _, p := range s.Pieces {
+					if !p.Const {
+						return false
+					}
+				}
+				continue
+			}
+			switch c := ins.(type) {
+			case *ssa.Call:
+				for _, a := range c.Common().Args {
+					if isByteSlice(a.Type()) || types.IsInterface(a.Type()) && !isNodeIface(a.Type()) {
+						return false
+					}
+				}
+				if c.Common().IsInvoke() && !isNodeIface(c.Common().Value.Type()) {
+					return false
+				}
+			case *ssa.Go, *ssa.Defer, *ssa.MapUpdate, *ssa.Send, *ssa.Panic:
+				return false
+			case *ssa.Store:
+				if _, local := c.Addr.(*ssa.Alloc); !local {
+					if _, idx := c.Addr.(*ssa.IndexAddr); !idx {
+						return false
+					}
+				}
+			}
+		}
+	}
+	return true
+}
+
+func isNodeIface(t types.Type) bool {
+	return strings.HasSuffix(typeShort(t), "ast.Node")
+}
+
 func ruleFlagUses(w *World, r *Report) {
 	sa := w.Sinks()
 	// ---------- X
@@ -910,6 +959,9 @@ func ruleFlagUses(w *World, r *Report) {
 		if rawFuncs[fn] {
 			// false arm: constants only
 			_, _, fok := w.armText(fn, fbU)
+			if !fok {
+				fok = w.armRegionConstantOnly(fn, fbU)
+			}
 			if fok {
 				r.OK(key+" (raw HTML)", pos, "selects between node bytes and the constant placeholder")
 			} else {
